@@ -121,6 +121,20 @@ PROPS = {
             "layer 2 runs with a minimal fixed environment; ASLR is left on there, so layer 2 also samples address-space layouts",
         ],
     },
+    "C18": {
+        "workloads": [("ns", "c18", 30000, 400000, None)],
+        "rule": (
+            "one case = a history of 5-40 operations on one Module (3/4) or Bundle (1/4): setattr / add(val) / add(val, name=) with names from a 4-letter alphabet and values of "
+            "every attribute kind (signal, port of each direction, instance, array, instance bundle, bundle instance, bundle port), get, and operations that must be rejected "
+            "(reserved names, non-HDL values, del, sub-classing, unnamed / doubly named add, additions after a scheduler-placed elaborate); after every operation get(), attribute "
+            "access, the per-kind views, the namespace, port visibility and _parent_module are compared with a dict model; rejected operations must change nothing; the final export "
+            "equals the class-style definition of the model's content; non-trivial = >= 2 names live; distinct = distinct operation sequences"
+        ),
+        "assumptions": [
+            "each value object is used under one name only (the property says each name denotes one object, not the converse)",
+            "after a mid-history elaborate only the rejection of further additions is checked (views legitimately change by flattening)",
+        ],
+    },
 }
 
 
